@@ -55,6 +55,16 @@ fn programs() -> Vec<Program> {
       ],
     },
     P {
+      name: "accepted: classes of the same name with different type-parameter lists in two modules",
+      entry: "Main",
+      modules: vec![
+        ("Alpha", "class Box<T>(val v: T) {\n  method get(): T = this.v\n  method <R> map(f: (T) -> R): Box<R> = Box.init(f(this.v))\n}\nclass Node<T>(Leaf(T), Two(T, T)) {\n  method first(): T = match this { Leaf(a) -> a, Two(a, _) -> a }\n}\n"),
+        ("Beta", "class Box<A, B>(val a: A, val b: B) {\n  method left(): A = this.a\n  method right(): B = this.b\n  method swap(): Box<B, A> = Box.init(this.b, this.a)\n}\nclass Node<K, V>(Leaf(K, V), Empty) {\n  method key(d: K): K = match this { Leaf(k, _) -> k, Empty -> d }\n}\n"),
+        ("Main", "import { Box, Node } from Alpha\nclass Main {\n  function main(): unit = {\n    Process.println(Str.fromInt(Box.init(20).map((x) -> x + 1).get()));\n    Process.println(Box.init(\"s\").get());\n    Process.println(Str.fromInt(Node.Two(4, 5).first()));\n    Process.println(Str.fromInt(Other.run()))\n  }\n}\nclass Other {\n  function run(): int = Helper.beta() + Helper2.gamma()\n}\nclass Helper {\n  function beta(): int = 1\n}\nclass Helper2 {\n  function gamma(): int = 2\n}\n"),
+        ("UseBeta", "import { Box, Node } from Beta\nclass Main {\n  function main(): unit = {\n    Process.println(Str.fromInt(Box.init(1, \"x\").swap().right()));\n    Process.println(Str.fromInt(Node.Leaf(3, true).key(0)))\n  }\n}\n"),
+      ],
+    },
+    P {
       name: "accepted: same class names in different modules, mutual imports",
       entry: "Main",
       modules: vec![
@@ -248,6 +258,11 @@ fn main() {
     // reference result
     let reference = match compile_once(p, &identity, None, 1) {
       Ok(f) => f,
+      Err(e) if e.contains("panicked") => {
+        // the first configuration is a configuration like any other
+        run.violation(&format!("panic:{}", e.chars().take(100).collect::<String>()), &format!("{e} [program `{}`, identity orders, 1 worker]", p.name), json!({"program": p.name}));
+        continue;
+      }
       Err(e) => machinery_failure(&format!("reference compile of `{}` failed: {e}", p.name)),
     };
     // jobs: (alloc order, iteration order, workers)
@@ -396,7 +411,13 @@ fn main() {
   for p in &progs {
     let n = p.modules.len();
     let identity: Vec<usize> = (0..n).collect();
-    let reference = compile_once(p, &identity, None, 4).unwrap_or_else(|e| machinery_failure(&e));
+    let reference = match compile_once(p, &identity, None, 4) {
+      Ok(f) => f,
+      Err(e) => {
+        run.violation(&format!("panic:{}", e.chars().take(100).collect::<String>()), &format!("{e} [program `{}`, fresh hash seeds]", p.name), json!({"program": p.name}));
+        continue;
+      }
+    };
     let rs: Vec<Result<Full, String>> = (0..k)
       .map(|_| {
         // a fresh OS thread gets fresh RandomState keys for every HashMap it creates
